@@ -1,14 +1,537 @@
 package main
 
 import (
+	"context"
+	"fmt"
 	"math/rand/v2"
+	"os"
+	"sort"
+	"strings"
 
 	"github.com/WuKongIM/WuKongIM/internal/verifh/vh"
+	metadb "github.com/WuKongIM/WuKongIM/pkg/db/meta"
+	"github.com/WuKongIM/WuKongIM/pkg/slot/fsm"
+	"github.com/WuKongIM/WuKongIM/pkg/slot/multiraft"
 )
 
-type input39 struct {
-	Ops []cmdJ `json:"ops"`
+// C39: hash slot hsB (12) migrates from slot srcSlot (11, meta DB 0, owns 11 and
+// 12) to slot tgtSlot (21, meta DB 1, owns 21).  A case is a script of steps:
+//
+//	src          one ApplyBatch on the source with Cmds
+//	tgt          one ApplyBatch on the target with Cmds (ordinary commands)
+//	start_delta  source: UpdateOutgoingDeltaTargets({12: 21})
+//	snapshot     source ExportHashSlotSnapshot(12) -> target ImportHashSlotSnapshot (preserving migration meta)
+//	deliver      one ApplyBatch on the target with apply_delta commands wrapping the forwarded
+//	             source commands number Idx[i] (position in the list of forwards captured so far,
+//	             modulo its length; duplicates and any order allowed)
+//	replay       deliver every durable outbox row of the source (ListHashSlotMigrationOutbox), in order, one batch
+//	ack          the source applies an ack command for every delta the target has a durable applied record of
+//	restart_tgt  the target state machine object is rebuilt over its DB (in-memory replay set lost)
+//	switch       ownership moves: target owns {21,12}, source owns {11}, source stops forwarding
+type step39 struct {
+	K    string   `json:"k"`
+	Cmds []cmdJ   `json:"cmds,omitempty"`
+	Idx  []uint64 `json:"idx,omitempty"`
 }
 
-func genC39(r *rand.Rand, tier string, i int) input39 { return input39{} }
-func runC39(in input39) vh.Result                      { return vh.Result{Trivial: true} }
+type input39 struct {
+	Ops  []step39 `json:"ops"`
+	Prof string   `json:"prof,omitempty"`
+}
+
+// ---- generator ------------------------------------------------------------------------------
+
+type gen39 struct {
+	lgen
+	uniq    int
+	reorder bool
+	opaque  bool
+}
+
+func (g *gen39) write(hs uint16) cmdJ {
+	r := g.r
+	if g.reorder {
+		// pairwise commuting writes only: every command writes a row of its own
+		g.uniq++
+		return cmdJ{K: vh.Pick(r, "upsert_user", "create_user"), HS: u16p(hs), UID: fmt.Sprintf("w%d", g.uniq), S1: vh.Pick(r, genTokens...), A: int64(r.IntN(3))}
+	}
+	if g.opaque && vh.Chance(r, 0.5) {
+		c := g.ch()
+		switch r.IntN(6) {
+		case 0, 1:
+			uids := make([]string, 1+r.IntN(2))
+			for i := range uids {
+				uids[i] = g.uid()
+			}
+			return cmdJ{K: vh.Pick(r, "add_subs", "add_subs", "remove_subs"), HS: u16p(hs), ID: c.ID, Ty: c.Ty, UIDs: uids, N1: vh.Pick(r, uint64(0), 0, 1, 2)}
+		case 2:
+			return cmdJ{K: vh.Pick(r, "upsert_channel", "create_channel", "delete_channel"), HS: u16p(hs), ID: c.ID, Ty: c.Ty, A: int64(r.IntN(2)), B: int64(r.IntN(2))}
+		case 3:
+			l := g.latestItem()
+			l.K, l.HS = "latest", u16p(hs)
+			return l
+		case 4:
+			e := g.eventItem(c)
+			e.K, e.HS = "msg_event", u16p(hs)
+			return e
+		default:
+			return cmdJ{K: "upsert_device", HS: u16p(hs), UID: g.uid(), A: int64(r.IntN(2)), S1: vh.Pick(r, genTokens...)}
+		}
+	}
+	u := g.user()
+	u.HS = u16p(hs)
+	return u
+}
+
+func (g *gen39) srcBatch(n int, fence bool) step39 {
+	st := step39{K: "src"}
+	fenceAt := -1
+	if fence {
+		fenceAt = g.r.IntN(n + 1)
+	}
+	for i := 0; i <= n; i++ {
+		if i == fenceAt {
+			st.Cmds = append(st.Cmds, cmdJ{K: "fence", HS: u16p(hsB), N1: hsB, N2: vh.Pick(g.r, uint64(0), 0, tgtSlot)})
+		}
+		if i < n {
+			hs := uint16(hsB)
+			if vh.Chance(g.r, 0.25) {
+				hs = hsA
+			}
+			st.Cmds = append(st.Cmds, g.write(hs))
+		}
+	}
+	return st
+}
+
+func genC39(r *rand.Rand, tier string, i int) input39 {
+	g := &gen39{lgen: lgen{r: r}}
+	in := input39{Prof: "inorder"}
+	x := r.IntN(100)
+	switch {
+	case x < 25:
+		g.reorder = true
+		in.Prof = "reorder"
+	case x < 55:
+		g.opaque = true
+		in.Prof = "opaque"
+	}
+	add := func(s step39) { in.Ops = append(in.Ops, s) }
+	nfw := 0 // forwards expected so far (approximation: hs 12 writes after start_delta)
+	countFw := func(s step39) {
+		for _, c := range s.Cmds {
+			if c.hs() == hsB {
+				nfw++
+			}
+		}
+	}
+	deliver := func(final bool) {
+		if nfw == 0 {
+			return
+		}
+		var idx []uint64
+		if final {
+			// everything, first occurrences in order unless reordering is allowed, duplicates sprinkled in
+			order := make([]uint64, nfw+2) // the approximation may be short: a few extra positions wrap around
+			for k := range order {
+				order[k] = uint64(k)
+			}
+			if g.reorder {
+				r.Shuffle(len(order), func(a, b int) { order[a], order[b] = order[b], order[a] })
+			}
+			for _, k := range order {
+				idx = append(idx, k)
+				if vh.Chance(r, 0.3) {
+					idx = append(idx, uint64(r.IntN(int(k)+1)))
+				}
+			}
+		} else {
+			n := 1 + r.IntN(3)
+			for k := 0; k < n; k++ {
+				if g.reorder {
+					idx = append(idx, uint64(r.IntN(nfw)))
+				} else {
+					// a prefix-respecting delivery: positions are clamped at run time to "next undelivered or older"
+					idx = append(idx, uint64(r.IntN(nfw)))
+				}
+			}
+		}
+		// split into batches of 1..3
+		for len(idx) > 0 {
+			n := 1 + r.IntN(3)
+			if n > len(idx) {
+				n = len(idx)
+			}
+			add(step39{K: "deliver", Idx: idx[:n]})
+			idx = idx[n:]
+			if vh.Chance(r, 0.1) {
+				add(step39{K: "restart_tgt"})
+			}
+		}
+	}
+	for k := r.IntN(3); k > 0; k-- {
+		add(g.srcBatch(1+r.IntN(3), false))
+	}
+	add(step39{K: "start_delta"})
+	for k := r.IntN(3); k > 0; k-- {
+		s := g.srcBatch(1+r.IntN(3), false)
+		countFw(s)
+		add(s)
+	}
+	add(step39{K: "snapshot"})
+	if vh.Chance(r, 0.15) {
+		add(step39{K: "tgt", Cmds: []cmdJ{g.write(hsB)}}) // target does not own 12 yet: refused
+	}
+	for k := r.IntN(4); k > 0; k-- {
+		s := g.srcBatch(1+r.IntN(3), false)
+		countFw(s)
+		add(s)
+		if vh.Chance(r, 0.6) {
+			deliver(false)
+		}
+		if vh.Chance(r, 0.2) {
+			add(step39{K: "ack"})
+		}
+	}
+	s := g.srcBatch(r.IntN(3), true)
+	countFw(s)
+	add(s)
+	if vh.Chance(r, 0.6) {
+		add(g.srcBatch(1+r.IntN(2), false)) // after the fence: hs 12 writes are answered hash_slot_fenced
+	}
+	if vh.Chance(r, 0.3) {
+		add(step39{K: "replay"})
+	}
+	deliver(true)
+	if vh.Chance(r, 0.3) {
+		add(step39{K: "replay"})
+	}
+	if vh.Chance(r, 0.3) {
+		add(step39{K: "ack"})
+	}
+	add(step39{K: "switch"})
+	if vh.Chance(r, 0.5) {
+		add(step39{K: "tgt", Cmds: []cmdJ{g.write(hsB)}})
+	}
+	if vh.Chance(r, 0.3) {
+		add(step39{K: "src", Cmds: []cmdJ{g.write(hsB)}}) // source no longer owns 12: refused
+	}
+	if vh.Chance(r, 0.3) {
+		deliver(false) // late duplicates after the switch
+	}
+	if vh.Chance(r, 0.4) {
+		add(step39{K: "ack"})
+		add(step39{K: "src", Cmds: []cmdJ{{K: "cleanup", HS: u16p(hsB), N1: hsB, N2: srcSlot, N3: tgtSlot, N4: 1 << 40}}})
+	}
+	// drop commands a Checked encoder refuses
+	for i := range in.Ops {
+		in.Ops[i].Cmds = keepEncodable(in.Ops[i].Cmds)
+	}
+	return in
+}
+
+// ---- run -------------------------------------------------------------------------------------------
+
+type fwd struct {
+	Target uint64
+	HS     uint16
+	Index  uint64
+	Data   []byte
+}
+
+// dataDigest12: 64 bits of SHA-256 over every raw row of hash slot 12 outside the
+// hash-slot-migration table (whose rows are local to each slot by design), and the rows.
+func dataRows12(db *metadb.DB) (uint64, []string) {
+	rows, err := metadb.VerifC13RawRows(db, hsB)
+	if err != nil {
+		panic(err)
+	}
+	var parts [][]byte
+	var txt []string
+	for _, kv := range rows {
+		k := kv[0]
+		if len(k) >= 9 && k[5] == 0 && k[6] == 0 && k[7] == 0 && k[8] == byte(metadb.TableIDHashSlotMigration) {
+			continue
+		}
+		parts = append(parts, kv[0], kv[1])
+		txt = append(txt, fmt.Sprintf("%x = %x", kv[0], kv[1]))
+	}
+	return hash64(parts...), txt
+}
+
+type stepObs struct {
+	K        string     `json:"k"`
+	Batch    *batchObs  `json:"batch,omitempty"`
+	Forwards []uint64   `json:"forwards,omitempty"`  // source indexes forwarded by this src batch
+	Deltas   [][2]uint64 `json:"deltas,omitempty"`   // deliver/replay: (source index, already delivered before?)
+	TgtData  [2]uint64  `json:"tgt_data,omitempty"`  // deliver/replay: data digest of hs 12 on the target before/after
+	Err      string     `json:"err,omitempty"`
+}
+
+type c39Obs struct {
+	Steps      []stepObs `json:"steps"`
+	SwitchSrc  uint64    `json:"switch_src"`
+	SwitchTgt  uint64    `json:"switch_tgt"`
+	Switched   bool      `json:"switched"`
+	Complete   bool      `json:"complete"` // every forwarded delta was delivered before the switch
+	Diff       []string  `json:"diff,omitempty"`
+	SrcDump    []string  `json:"src_dump,omitempty"`
+	TgtDump    []string  `json:"tgt_dump,omitempty"`
+}
+
+func runC39(in input39) vh.Result {
+	ok := false
+	defer func() {
+		if !ok {
+			abandonHandles()
+		}
+	}()
+	ctx := context.Background()
+	src := newSrcWorld(0, cfgJ{}, true)
+	tgt := newTgtWorld(1)
+	var forwards []fwd
+	var batchFw []uint64
+	setFw := func(w *world) {
+		w.raw.(interface {
+			SetDeltaForwarder(func(context.Context, multiraft.SlotID, multiraft.Command) error)
+		}).SetDeltaForwarder(func(_ context.Context, target multiraft.SlotID, cmd multiraft.Command) error {
+			forwards = append(forwards, fwd{uint64(target), cmd.HashSlot, cmd.Index, append([]byte(nil), cmd.Data...)})
+			batchFw = append(batchFw, cmd.Index)
+			return nil
+		})
+	}
+	setFw(src)
+	srcIdx, tgtIdx := uint64(0), uint64(0)
+	delivered := map[uint64]bool{}
+	obs := c39Obs{}
+	modelled := true
+	var steps []string
+	flags := map[string]bool{}
+	started, snapped, switched := false, false, false
+	applyCmds := func(w *world, cmds []cmdJ, idx *uint64, slot uint64) (batchObs, []string) {
+		var mc []multiraft.Command
+		var ents []string
+		for _, c := range cmds {
+			data, okc := c.encode()
+			if !okc {
+				continue
+			}
+			if !c.modelled() {
+				modelled = false
+			}
+			*idx++
+			sid := multiraft.SlotID(slot)
+			if c.BadSlot {
+				sid++
+			}
+			mc = append(mc, multiraft.Command{SlotID: sid, HashSlot: c.hs(), Index: *idx, Term: 1, Data: data})
+			ents = append(ents, vh.App("Entry", vh.B(!c.BadSlot), vh.N(uint64(c.hs())), c.coq(), vh.Hex(data), "None"))
+		}
+		return w.applyObs(mc), ents
+	}
+	deliverDeltas := func(list []fwd) (stepObs, string) {
+		so := stepObs{}
+		var mc []multiraft.Command
+		var ds []string
+		for _, f := range list {
+			tgtIdx++
+			mc = append(mc, multiraft.Command{SlotID: tgtSlot, HashSlot: f.HS, Index: tgtIdx, Term: 1,
+				Data: fsm.EncodeApplyDeltaCommand(srcSlot, f.Index, f.HS, f.Data)})
+			dup := uint64(0)
+			if delivered[f.Index] {
+				dup = 1
+			}
+			so.Deltas = append(so.Deltas, [2]uint64{f.Index, dup})
+			ds = append(ds, vh.N(f.Index))
+		}
+		before, _ := dataRows12(tgt.db)
+		b := tgt.applyObs(mc)
+		after, _ := dataRows12(tgt.db)
+		so.Batch, so.TgtData = &b, [2]uint64{before, after}
+		if b.Fatal == 0 {
+			for _, f := range list {
+				delivered[f.Index] = true
+			}
+		}
+		return so, vh.List(ds)
+	}
+	for _, st := range in.Ops {
+		so := stepObs{K: st.K}
+		var coq string
+		switch st.K {
+		case "src":
+			batchFw = nil
+			b, ents := applyCmds(src, st.Cmds, &srcIdx, srcSlot)
+			so.Batch, so.Forwards = &b, batchFw
+			coq = vh.App("SSrc", vh.List(ents), b.coq(), vh.NList(batchFw))
+			for _, r := range b.Res {
+				if r.Cls == 2 {
+					flags["fenced"] = true
+				}
+			}
+			if b.Fatal != 0 {
+				flags["src_refused"] = true
+			}
+		case "tgt":
+			b, ents := applyCmds(tgt, st.Cmds, &tgtIdx, tgtSlot)
+			so.Batch = &b
+			coq = vh.App("STgt", vh.List(ents), b.coq())
+			if b.Fatal != 0 {
+				flags["tgt_refused"] = true
+			}
+		case "start_delta":
+			src.raw.(smConfig).UpdateOutgoingDeltaTargets(map[uint16]multiraft.SlotID{hsB: tgtSlot})
+			started = true
+			coq = "SStartDelta"
+		case "snapshot":
+			snap, err := src.raw.(interface {
+				ExportHashSlotSnapshot(context.Context, uint16) (metadb.SlotSnapshot, error)
+			}).ExportHashSlotSnapshot(ctx, hsB)
+			if err == nil {
+				err = tgt.raw.(interface {
+					ImportHashSlotSnapshot(context.Context, metadb.SlotSnapshot) error
+				}).ImportHashSlotSnapshot(ctx, snap)
+			}
+			if err != nil {
+				so.Err = err.Error()
+			}
+			if started {
+				snapped = true
+			}
+			coq = vh.App("SSnapshot", vh.B(err == nil))
+		case "deliver":
+			if len(forwards) == 0 {
+				coq = vh.App("SDeliver", "[]", vh.App("BObs", "(BOk [])", vh.N(tgt.digest()), vh.N(tgt.appliedIndex())), "0", "0")
+				break
+			}
+			var list []fwd
+			for _, k := range st.Idx {
+				list = append(list, forwards[int(k%uint64(len(forwards)))])
+			}
+			if in.Prof != "reorder" {
+				// first deliveries keep the source order: an undelivered delta may only be delivered
+				// when every older one has been (duplicates of delivered ones are free)
+				next := 0
+				for next < len(forwards) && delivered[forwards[next].Index] {
+					next++
+				}
+				for i, f := range list {
+					if !delivered[f.Index] {
+						if next < len(forwards) {
+							list[i] = forwards[next]
+							for next < len(forwards) && (delivered[forwards[next].Index] || forwards[next].Index == list[i].Index) {
+								next++
+							}
+						} else {
+							list[i] = forwards[0]
+						}
+					}
+				}
+			}
+			d, ds := deliverDeltas(list)
+			d.K = st.K
+			so = d
+			coq = vh.App("SDeliver", ds, so.Batch.coq(), vh.N(so.TgtData[0]), vh.N(so.TgtData[1]))
+			flags["deliver"] = true
+			for _, x := range so.Deltas {
+				if x[1] == 1 {
+					flags["dup"] = true
+				}
+			}
+		case "replay":
+			rows, err := src.db.ListHashSlotMigrationOutbox(ctx, hsB, srcSlot, tgtSlot, 0, 1000)
+			if err != nil {
+				so.Err = err.Error()
+			}
+			var list []fwd
+			for _, row := range rows {
+				list = append(list, fwd{row.TargetSlot, row.HashSlot, row.SourceIndex, row.Data})
+			}
+			d, ds := deliverDeltas(list)
+			d.K, d.Err = st.K, so.Err
+			so = d
+			coq = vh.App("SReplay", ds, so.Batch.coq(), vh.N(so.TgtData[0]), vh.N(so.TgtData[1]))
+			flags["replay"] = true
+		case "ack":
+			var cmds []cmdJ
+			for _, d := range tgt.appliedDeltas(hsB) {
+				if d.SourceSlot == srcSlot {
+					cmds = append(cmds, cmdJ{K: "ack", HS: u16p(hsB), N1: hsB, N2: srcSlot, N3: tgtSlot, N4: d.SourceIndex})
+				}
+			}
+			b, ents := applyCmds(src, cmds, &srcIdx, srcSlot)
+			so.Batch = &b
+			coq = vh.App("SSrc", vh.List(ents), b.coq(), "[]")
+			flags["ack"] = true
+		case "restart_tgt":
+			owned := []uint16{hsTarget}
+			if switched {
+				owned = []uint16{hsTarget, hsB}
+			}
+			sm, bsm := newStateMachine(tgt.db, tgtSlot, owned, cfgJ{})
+			tgt.raw, tgt.sm = sm, bsm
+			coq = "SRestartTgt"
+			flags["restart"] = true
+		case "switch":
+			obs.SwitchSrc, _ = dataRows12(src.db)
+			obs.SwitchTgt, _ = dataRows12(tgt.db)
+			obs.Switched = true
+			obs.Complete = started && snapped
+			for _, f := range forwards {
+				if !delivered[f.Index] {
+					obs.Complete = false
+				}
+			}
+			if obs.Complete && obs.SwitchSrc != obs.SwitchTgt {
+				_, a := dataRows12(src.db)
+				_, b := dataRows12(tgt.db)
+				obs.Diff = append(obs.Diff, "hash slot 12 differs between source and target at the switch", "source:")
+				obs.Diff = append(obs.Diff, a...)
+				obs.Diff = append(obs.Diff, "target:")
+				obs.Diff = append(obs.Diff, b...)
+			}
+			tgt.raw.(smConfig).UpdateOwnedHashSlots([]uint16{hsTarget, hsB})
+			src.raw.(smConfig).UpdateOwnedHashSlots([]uint16{hsA})
+			src.raw.(smConfig).UpdateOutgoingDeltaTargets(nil)
+			switched = true
+			coq = vh.App("SSwitch", vh.B(obs.Complete), vh.N(obs.SwitchSrc), vh.N(obs.SwitchTgt))
+		default:
+			panic("unknown step kind " + st.K)
+		}
+		obs.Steps = append(obs.Steps, so)
+		steps = append(steps, coq)
+	}
+	// final tables of both sides (modelled scripts only)
+	srcDump, tgtDump := "None", "None"
+	if modelled {
+		var keys []chanKey
+		d, txt := src.dump(keys)
+		srcDump, obs.SrcDump = vh.Some(d), txt
+		d, txt = tgt.dump(keys)
+		tgtDump, obs.TgtDump = vh.Some(d), txt
+	}
+	coq := vh.App("C39Case", vh.B(modelled), vh.List(steps), srcDump, tgtDump)
+	class := in.Prof
+	if class == "" {
+		class = "replay"
+	}
+	var fl []string
+	for f := range flags {
+		fl = append(fl, f)
+	}
+	sort.Strings(fl)
+	if len(fl) > 0 {
+		class += "+" + strings.Join(fl, "+")
+	}
+	if obs.Switched && !obs.Complete {
+		class += "+incomplete"
+	}
+	if len(obs.Diff) > 0 {
+		class += "+DIFF"
+		if os.Getenv("VERIF_C13_DEBUG") != "" {
+			fmt.Fprintf(os.Stderr, "---- %s\n%s\n", class, strings.Join(obs.Diff, "\n"))
+		}
+	}
+	ok = true
+	return vh.Result{Coq: coq, Obs: obs, Class: class, Trivial: len(in.Ops) == 0}
+}
